@@ -1163,6 +1163,11 @@ impl TypeChecker {
     ) -> TypeResult<(&'a Meta<Identifier>, Declaration)> {
         let mut ident = idents.next().unwrap();
 
+        // Only the first segment of a path is looked up in the enclosing
+        // scopes. A segment after `super` is looked up only among the members
+        // of that module, like any other segment that is not the first.
+        let mut recurse = true;
+
         while ident.node == "super".into() {
             let Some(dec) = self.type_info.scope_graph.parent_module(scope)
             else {
@@ -1184,13 +1189,13 @@ impl TypeChecker {
             };
 
             ident = tmp_ident;
+            recurse = false;
         }
 
         // Keep checking modules until we find something that isn't a module
         // The current implementation is a bit strange because it uses
         // resolve_name, but after the first identifier, it should actually
         // not really traverse the scope graph.
-        let mut recurse = true;
         loop {
             if ident.node == "super".into() {
                 return Err(self.error_simple(
